@@ -71,7 +71,7 @@ BODIES = [
     ("comment_block", ["# leading comment", "# second line", "y = [1,", "     2]", "return y"]),
     ("blank_lines", ["z = 'text'", "", "", "return z"]),
 ]
-KINDS = ["function", "async_function", "method", "nested", "class_attrs", "method_deco", "function_deco"]
+KINDS = ["function", "async_function", "method", "nested", "class_attrs", "method_deco", "function_deco", "in_method", "under_if", "under_try"]
 
 
 def render_def(kind, header_key, docstyle, body_key, name="f", indent=""):
@@ -123,6 +123,16 @@ def render_def(kind, header_key, docstyle, body_key, name="f", indent=""):
         lines = [indent + "def outer_%s(q):" % name, indent + '    """Outer."""', indent + "    # before inner"]
         lines += block(indent + "    ", params_src, params, returns)
         lines += [indent + "    return %s" % name]
+    elif kind == "in_method":
+        # a definition whose real indentation is deeper than its ancestry of definitions suggests: def inside a method of a class
+        lines = [indent + "class K%s(object):" % name.upper(), indent + '    """Holder."""', "", indent + "    def outer(self, q):", indent + '        """Outer."""']
+        lines += block(indent + "        ", params_src, params, returns)
+        lines += [indent + "        return %s" % name]
+    elif kind in ("under_if", "under_try"):
+        head = "if CONST:" if kind == "under_if" else "try:"
+        lines = [indent + head]
+        lines += block(indent + "    ", params_src, params, returns)
+        lines += [indent + "else:", indent + "    %s = None" % name] if kind == "under_if" else [indent + "except ImportError:", indent + "    %s = None" % name]
     elif kind == "class_attrs":
         doc = None if style == "none" else ("Summary of it." if style == "oneline" else None)
         lines = [indent + "class C%s(Base, metaclass=Meta):" % name.upper()]
